@@ -51,6 +51,7 @@ def check(ctx):
         r5_voxel_invariants(ctx, cf)
         r5_face_tests(ctx, cf)
         r5_disjoint_x_ranges(ctx, cf)
+        r5_corner_extrema(ctx, cf)
         r5_y_range_of_a_z_voxel(ctx, cf)
     finally:
         C.MEMBER_OBJECTS = False
@@ -614,6 +615,104 @@ def r5_face_tests(ctx, cf):
     ctx.decide(lead == "usePeriodic" and flat == want, "C10-R5", C.line(decl[0]), NL, "Voxels::getNeighbors",
                "needPeriodic = usePeriodic and (within maxDistance of a y or z face, same axis on both sides of each test, or the x range leaves the cell)", "",
                "the face tests are %s (expected %s): an atom near the face whose test is missing or uses another axis's box length is searched without periodic images" % (flat, want))
+
+
+def r5_corner_extrema(ctx, cf):
+    """Triclinic cells: the x interval searched in a voxel is widened by the x offsets of the periodic images of the voxel's four (y, z) corners.  The
+    block is value-numbered (sa/symval.py; floor / sqrt / abs / min / max opaque, lane by lane for fvec4): the lower end uses the largest and the
+    upper end the smallest of exactly the four corner offsets, each the x component of corner - centre wrapped along c, b, a.  An extremum over fewer
+    corners makes the interval too narrow and loses pairs."""
+    from ..symval import SymExec, State, Ptr, Vec, Unsupported
+    from ..poly import Poly, Rat
+    gn = cf.function(NL, "getNeighbors")
+    desc = "triclinic cells: the x interval of a voxel is widened by the extrema over the images of all four of its corners"
+    cands = [n for n in C.walk(gn) if n["kind"] == "IfStmt" and "triclinic" in C.text(C.kids(n)[0]) and sum(1 for y in C.walk(n) if y["kind"] == "VarDecl" and "fvec4" in C.qtype(y)) >= 4]
+    if not cands:
+        ctx.undecided("C10-R5", C.line(gn), NL, "Voxels::getNeighbors", desc, "the block that prunes by voxel corners under `triclinic` was not found")
+        return
+    then = C.kids(cands[0])[1]
+
+    def model(name, args, n, st, ex_):
+        vals = [a for a in args if isinstance(a, Rat)]
+        if name in ("min", "max") and len(vals) == 2 and len(args) == 2:
+            return ex_.opaque_call(name, vals)
+        if name in ("min", "max") and len(args) == 2 and all(isinstance(a, Vec) for a in args):
+            return Vec([ex_.opaque_call(name, [args[0][k], args[1][k]]) for k in range(4)])
+        if name in ("abs", "fabs", "fabsf", "__builtin_labs") and len(args) == 1 and isinstance(args[0], Vec):
+            return Vec([ex_.opaque_call("abs", [args[0][k]]) for k in range(4)])
+        return None
+    ex = SymExec(cf, NL, call_model=model)
+    st = State()
+    var = lambda n_: Rat(Poly.var(n_))      # noqa: E731
+    c = [var("c%d" % k) for k in range(3)]
+    Bm = [[var("B%d%d" % (k, j)) for j in range(3)] for k in range(3)]
+    for nm in ("centerPosVec", "this.centerPosVec"):
+        st.env[nm] = Vec(c + [Rat(Poly.const(0))])
+    for nm in ("centerAtomPos", "recipBoxSize", "periodicBoxVec4"):
+        st.env[nm] = Ptr(nm, 0)
+        st.env["this." + nm] = Ptr(nm, 0)
+    for k in range(3):
+        st.env[("periodicBoxVec4", k)] = Vec(Bm[k] + [Rat(Poly.const(0))])
+    names = {"voxelIndex.y": "vy", "voxelIndex.z": "vz", "atomVoxelIndex.y": "ay", "atomVoxelIndex.z": "az", "minx": "minx", "maxx": "maxx", "voxelSizeY": "sy", "voxelSizeZ": "sz", "maxDistanceSquared": "d2max"}
+    for nm, sym_ in names.items():
+        st.env[nm] = var(sym_)
+        st.env["this." + nm] = var(sym_)
+    try:
+        outs = ex.run(C.kids(then), st)
+    except Unsupported as e:
+        ctx.undecided("C10-R5", C.line(cands[0]), NL, "Voxels::getNeighbors", desc, "not evaluable: %s" % e)
+        return
+    floors = [n_ for n_, (f_, a_) in ex.opaque.items() if f_ in ("floor", "floorf")]
+    fname = ex.opaque[floors[0]][0] if floors else "floor"
+    rec = [var("recipBoxSize[%d]" % k) for k in range(3)]
+    half = Rat(Poly.const(1)) / 2
+
+    def wrap(d):
+        d = list(d)
+        for k in (2, 1, 0):
+            f = ex.opaque_call(fname, [d[k] * rec[k] + half])
+            d = [d[j] - Bm[k][j] * f for j in range(3)]
+        return d
+    zero = Rat(Poly.const(0))
+    d1 = [zero, var("sy") * var("vy") - c[1], var("sz") * var("vz") - c[2]]
+    corners = [d1, [d1[0], d1[1] + var("sy"), d1[2]], [d1[0], d1[1], d1[2] + var("sz")], [d1[0], d1[1] + var("sy"), d1[2] + var("sz")]]
+    want = [wrap(d_)[0] for d_ in corners]
+
+    def leaves(v, fn_):
+        vs = list(v.vars()) if isinstance(v, Rat) else []
+        if isinstance(v, Rat) and len(vs) == 1 and v == var(vs[0]) and ex.opaque.get(vs[0], ("",))[0] == fn_:
+            out = []
+            for a_ in ex.opaque[vs[0]][1]:
+                out += leaves(a_, fn_)
+            return out
+        return [v]
+
+    def chain_of(v, outer, inner):
+        """the leaves of the `inner` extremum inside  outer(old, centre -+ dist - inner(...))"""
+        vs = list(v.vars()) if isinstance(v, Rat) else []
+        if not (len(vs) == 1 and ex.opaque.get(vs[0], ("",))[0] == outer):
+            return None
+        for a_ in ex.opaque[vs[0]][1]:
+            tops = [x_ for x_ in a_.vars() if ex.opaque.get(x_, ("",))[0] == inner]
+            if tops:
+                return leaves(var(tops[0]), inner)
+        return None
+    done, why = 0, []
+    for o in outs:
+        lo, hi = chain_of(o.env.get("minx"), "min", "max"), chain_of(o.env.get("maxx"), "max", "min")
+        if lo is None or hi is None:
+            continue
+        done += 1
+        for what, got in (("lower end (largest corner offset)", lo), ("upper end (smallest corner offset)", hi)):
+            missing = [k_ + 1 for k_, w_ in enumerate(want) if not any(g_ == w_ for g_ in got)]
+            extra = [g_ for g_ in got if not any(g_ == w_ for w_ in want)]
+            if missing or extra:
+                why.append("the %s is taken over %d value(s) that %s" % (what, len({repr(g_) for g_ in got}), ("leave out the image of corner %s" % missing) if missing else "are not corner offsets"))
+        break
+    if not done:
+        ctx.undecided("C10-R5", C.line(cands[0]), NL, "Voxels::getNeighbors", desc, "no path on which the interval is widened was recognised (%d paths)" % len(outs))
+        return
+    ctx.decide(not why, "C10-R5", C.line(cands[0]), NL, "Voxels::getNeighbors", desc, "", "; ".join(why) + ": the interval can be too narrow, pairs across a skewed cell are lost")
 
 
 def r5_disjoint_x_ranges(ctx, cf):
